@@ -200,6 +200,14 @@ def run_case(case):
     tables = {"walked-collector": {"feature": coll.summary_counts.features, "rule": coll.summary_counts.rules,
                                    "scenario": coll.summary_counts.scenarios, "step": coll.summary_counts.steps}}
     lists = {"walked-collector": ([s.name for s in coll.failed_scenarios], [s.name for s in coll.errored_scenarios])}
+    # LIBRARY USE: delegation-based walk (documented second use of ModelVisitor): an external walker drives the collector
+    from behave.model_visitor import ModelVisitor
+    c2 = SummaryCollector()
+    walker = ModelVisitor(visitor=c2)
+    walker.visit_many(feats) if hasattr(walker, "visit_many") else [walker.visit_feature(f) for f in feats]
+    tables["delegated-collector"] = {"feature": c2.summary_counts.features, "rule": c2.summary_counts.rules,
+                                     "scenario": c2.summary_counts.scenarios, "step": c2.summary_counts.steps}
+    lists["delegated-collector"] = ([s.name for s in c2.failed_scenarios], [s.name for s in c2.errored_scenarios])
     # one collector per feature, merged with `+=` into a grand total (the documented way to combine SummaryCounts)
     from behave.summary import SummaryCounts
     total = SummaryCounts()
